@@ -9,6 +9,13 @@
 
 pub use crate::composer::{VerifGate, VerifSnapshot};
 
+/// The values in the compressed-circuit codec's built-in scalar table
+/// (0, 1, -1 and the Hades constants), for generators that need selectors
+/// equal to table entries.
+pub fn compress_builtin_scalars() -> alloc::vec::Vec<dusk_bls12_381::BlsScalar> {
+    crate::composer::verif_builtin_scalars()
+}
+
 pub use kernels::*;
 
 /// Thin public wrappers over the crate-private FFT, polynomial and KZG
